@@ -40,6 +40,7 @@ pub struct Stat {
         long,
         default_value = "6",
         use_value_delimiter = true,
+        value_parser = crate::parse_precision,
         value_name = "INT,..."
     )]
     pub precision: Vec<usize>,
